@@ -40,6 +40,16 @@ class Fail(Exception):
         self.detail = str(detail)[:2000]
 
 
+
+def is_flaky(e):
+    """Hypothesis reports 'flaky' when a replayed history behaves differently from its first run - which is what
+    happens when the code under test keeps state between histories (itself a violation that was recorded)"""
+    import hypothesis.errors as he
+    if isinstance(e, he.Flaky):
+        return True
+    return isinstance(e, BaseExceptionGroup) and any(is_flaky(x) for x in e.exceptions)
+
+
 class SutError(Exception):
     """the code under test raised"""
 
